@@ -150,6 +150,9 @@ def case_key(case):
 
 
 def main():
+    # the harness itself walks deeply nested case descriptions (trees of depth 260+) recursively: shrinking, copying,
+    # JSON. The implementation under test runs in a separate worker process with the interpreter's default limit.
+    sys.setrecursionlimit(20000)
     ap = argparse.ArgumentParser()
     ap.add_argument("prop")
     ap.add_argument("--tier", default=os.environ.get("VERIF_TIER", "quick"), choices=["quick", "thorough"])
